@@ -203,10 +203,14 @@ def run(tier, seed, open_findings):
     out = [check(list(cm.two_level_models()), 2, tier, seed, known, 'C01.two_level_models', 6),
            check(list(cm.two_level_models_rev()), 2, tier, seed, known, 'C01.two_level_models_rev', 6),
            check(list(cm.variant_models()), 3, tier, seed, known, 'C01.variant_models', 1), check_subst(tier, seed), check_refs(tier, seed), check_competition(tier, seed, open_findings)]
-    return out
+    from . import C01_xsd11
+    return out + C01_xsd11.run(tier, seed, open_findings)
 
 
 def replay(check_name, case):
+    if case.get('xsd11'):
+        from . import C01_xsd11
+        return C01_xsd11.replay(check_name, case)
     if case.get('groupref'):
         sp = case['spec']; g = _tuplify(sp[1]); spec = (sp[0], g, tuple(sp[2])) + ((tuple(sp[3]),) if len(sp) > 3 else ())
         r = ref_eval((spec, case['version'])); return dict(ok=not r, observed=r, required='is_valid(doc(w)) <=> w in L(m)')
